@@ -128,6 +128,9 @@ class Driver:
         else:
             start += len(lines[first - 1]) - len(lines[first - 1].lstrip())
             end = sum(len(l) + 1 for l in lines[:last]) - 1
+        if "rope_kind" in opts:
+            opts = dict(opts)
+            opts["kind"] = opts.pop("rope_kind")
         self.seen[:] = []
         X._FunctionInformationCollector = self.Spy
         res = {"refused": False, "error": None, "sets": None, "args": None, "rets": None, "new": None,
